@@ -38,10 +38,12 @@ package snapshot
 //@ file snapshot.go
 
 // gzip trailer / trailing garbage check
+// (io.ReadAll is modelled as handing out the ghost remainder of the stream: restBytes(r), restErr(r))
 //@ func concludeGzipRead
-//@ trusted
+//@ props C20
 //@ opt record concludeGzipRead
 //@ results err
+//@ ensures[clean-end-only] err == nil <==> (restErr(decomp) == nil && len(restBytes(decomp)) == 0)
 
 // Z4: Verify and Read succeed only if the archive was read and verified and the compressed stream ended cleanly
 //@ func Verify
